@@ -167,6 +167,7 @@ type Wire struct {
 	Faults   map[FaultKey]Fault
 	Fired    []FaultKey
 	wireOps  map[string]int
+	unsync   func() (packets.SourceSinkHandle, bool, error)
 }
 
 // NewWire creates an empty wire.
@@ -204,6 +205,9 @@ func (w *Wire) fault(h *Handle, op string) (Fault, bool) {
 
 // Factory is the packets.VerifSourceSinkFactoryFn of this wire.
 func (w *Wire) Factory(addr netip.Addr, _ bool) (packets.SourceSinkHandle, bool, error) {
+	if w.unsync != nil {
+		return w.unsync()
+	}
 	w.mu.Lock()
 	if f, ok := w.fault(nil, "factory"); ok {
 		w.mu.Unlock()
